@@ -24,7 +24,7 @@ def param_case(case):
             with native.quiet():
                 m.parameters = d
                 for fn in ('solve_determ', 'simulate_param'):
-                    Y, runs = getattr(m, fn)(t[1:] if fn == 'simulate_param' else t[1:], 3, full_output=True)
+                    Y, runs = getattr(m, fn)(t[1:] if fn == 'simulate_param' else t[1:], case.get('iterations', 3), full_output=True)
                     outs.append((fn, rep, np.asarray(Y, float), [np.asarray(r, float) for r in runs]))
                     if not np.allclose(np.asarray(Y, float), np.mean(np.asarray(runs, float), axis=0), rtol=1e-12, atol=1e-12):
                         bad.append("%s (%s form): reported mean is not the mean of the returned runs" % (fn, form))
@@ -32,7 +32,7 @@ def param_case(case):
             a = [o for o in outs if o[0] == fn]
             if not (np.array_equal(a[0][2], a[1][2]) and all(np.array_equal(x, y) for x, y in zip(a[0][3], a[1][3]))):
                 bad.append("%s (%s form): same global seed, different output" % (fn, form))
-            if all(np.array_equal(a[0][3][0], r) for r in a[0][3][1:]):
+            if len(a[0][3]) > 1 and all(np.array_equal(a[0][3][0], r) for r in a[0][3][1:]):
                 bad.append("%s (%s form): all runs identical, parameters were not drawn" % (fn, form))
     return bad
 
@@ -70,7 +70,10 @@ def run(tier='quick', seed=0):
     seen = set()
     rng = np.random.RandomState(seed + 31)
     for k, case in enumerate([chain_case(rng) for _ in range(3 if tier == 'quick' else 12)]):
-        key = repr(case['spec']['events'])
+        # numbers of runs: one, a few, and more than a hundred but not a multiple of a hundred (a blocked or batched average must
+        # still be the average of all runs)
+        case['iterations'] = [3, 1, 130, 7, 250][k % 5]
+        key = repr(case['spec']['events']) + str(case['iterations'])
         if key in seen:
             continue
         seen.add(key)
